@@ -830,11 +830,64 @@ func genKey(r *hx.Rand) string {
 	return word(r, hx.Pick(r, keyPool), false)
 }
 
+// Unicode white space (unicode.IsSpace) other than ASCII: it separates tokens and ends a bare word
+// exactly like a blank
+var uniSpaces = []string{"\u0085", "\u00a0", "\u1680", "\u2000", "\u2001", "\u2002", "\u2003", "\u2004", "\u2005", "\u2006",
+	"\u2007", "\u2008", "\u2009", "\u200a", "\u2028", "\u2029", "\u202f", "\u205f", "\u3000"}
+
+// usp is a separator: mostly a blank, sometimes a Unicode space (or one on either side of a blank)
+func usp(r *hx.Rand) string {
+	switch r.Intn(12) {
+	case 0:
+		return hx.Pick(r, uniSpaces)
+	case 1:
+		return hx.Pick(r, uniSpaces) + " "
+	case 2:
+		return " " + hx.Pick(r, uniSpaces)
+	}
+	return " "
+}
+
+// longList: 8-12 literal values for one key — the key's real value(s) among fillers; for .unit
+// both the base unit and the unit as written occur
+func longList(r *hx.Rand, key string, rs *resSpec) []string {
+	k := 8 + r.Intn(5)
+	cands := valuesFor(r, key, rs)
+	vs := make([]string, 0, k)
+	for i := 0; len(vs) < k; i++ {
+		if i < len(cands) && r.Chance(2, 3) {
+			vs = append(vs, cands[i])
+		} else {
+			vs = append(vs, "z"+strconv.Itoa(i))
+		}
+	}
+	for i := len(vs) - 1; i > 0; i-- {
+		j := r.Intn(i + 1)
+		vs[i], vs[j] = vs[j], vs[i]
+	}
+	return vs
+}
+
 func genTerm(r *hx.Rand, rs *resSpec) string {
 	key := genKey(r)
 	bare := key
 	if uq, err := strconv.Unquote(key); err == nil {
 		bare = uq
+	}
+	if r.Chance(1, 10) {
+		// a long list of literals, as a value list or spelled out as an OR chain
+		vs := longList(r, bare, rs)
+		ws := make([]string, len(vs))
+		if r.Bool() {
+			for i, v := range vs {
+				ws[i] = word(r, v, true)
+			}
+			return key + ":(" + strings.Join(ws, " OR ") + ")"
+		}
+		for i, v := range vs {
+			ws[i] = key + ":" + word(r, v, true)
+		}
+		return "(" + strings.Join(ws, " OR ") + ")"
 	}
 	if r.Chance(1, 5) {
 		k := 1 + r.Intn(3)
@@ -843,7 +896,11 @@ func genTerm(r *hx.Rand, rs *resSpec) string {
 			vs[i] = genValue(r, bare, rs)
 		}
 		sp := hx.Pick(r, []string{"", "", " "})
-		return key + ":(" + sp + strings.Join(vs, " OR ") + sp + ")"
+		j := vs[0]
+		for _, v := range vs[1:] {
+			j += usp(r) + "OR" + usp(r) + v
+		}
+		return key + ":(" + sp + j + sp + ")"
 	}
 	return key + ":" + genValue(r, bare, rs)
 }
@@ -876,7 +933,11 @@ func genAnd(r *hx.Rand, rs *resSpec, d int) string {
 	k := count3(r, 50, 35)
 	s := genMatch(r, rs, d)
 	for i := 1; i < k; i++ {
-		s += hx.Pick(r, []string{" ", " AND ", "  ", " "}) + genMatch(r, rs, d)
+		if r.Chance(1, 4) {
+			s += usp(r) + "AND" + usp(r) + genMatch(r, rs, d)
+		} else {
+			s += hx.Pick(r, []string{" ", "  ", usp(r), usp(r)}) + genMatch(r, rs, d)
+		}
 	}
 	return s
 }
@@ -885,7 +946,7 @@ func genExpr(r *hx.Rand, rs *resSpec, d int) string {
 	k := count3(r, 60, 30)
 	s := genAnd(r, rs, d)
 	for i := 1; i < k; i++ {
-		s += " OR " + genAnd(r, rs, d)
+		s += usp(r) + "OR" + usp(r) + genAnd(r, rs, d)
 	}
 	return s
 }
